@@ -433,7 +433,8 @@ func TestVerifC18AddGet(t *testing.T) {
 		step{"SaveLoad", nil, "saveload"},
 		step{"RefusedLoad(truncated)", nil, "badload-truncated"}, step{"RefusedLoad(malformed)", nil, "badload-malformed"},
 		step{"Save", nil, "save"}, step{"ReloadSameInstance", nil, "reload-same"},
-		step{"Load(file listing P twice)", nil, "load-dup"})
+		step{"Load(file listing P twice)", nil, "load-dup"},
+		step{"Load(file whose last record has no topology hash)", nil, "load-nohash"})
 	// files that must be refused: a database with three OTHER signatures (X, Y, Z), cut in the
 	// middle of the second entry, and the same database with a wrongly typed field in its last entry
 	var others []detection.Signature
@@ -455,6 +456,13 @@ func TestVerifC18AddGet(t *testing.T) {
 	dupJSON, _ := json.Marshal(detection.SignatureDatabase{Version: "1.0", Signatures: dupSigs})
 	dupFile := filepath.Join(scratch, "listed-twice.json")
 	os.WriteFile(dupFile, dupJSON, 0o644)
+	// a well-formed file whose LAST record lacks the topology hash (hand-edited databases have
+	// such records): a store may load it or refuse it, but a refusal must leave the store as it was
+	noHashSigs := []detection.Signature{mkSig("U", 301), mkSig("V", 302), mkSig("W", 303)}
+	noHashSigs[2].TopologyHash = ""
+	noHashJSON, _ := json.Marshal(detection.SignatureDatabase{Version: "1.0", Signatures: noHashSigs})
+	noHashFile := filepath.Join(scratch, "last-record-without-hash.json")
+	os.WriteFile(noHashFile, noHashJSON, 0o644)
 	depth := 3
 	idx := 0
 	var rec func(seq []int)
@@ -554,6 +562,23 @@ func TestVerifC18AddGet(t *testing.T) {
 					} else {
 						// the store now holds the file's content: one record per ID, the last one listed
 						want = map[string]detection.Signature{"P": cloneSig(dupSigs[2]), "Q": cloneSig(dupSigs[1])}
+					}
+				case "load-nohash":
+					js, isJSON := b.(*c18JSON)
+					if !isJSON {
+						continue
+					}
+					if err := js.s.LoadDatabase(noHashFile); err == nil {
+						want = map[string]detection.Signature{}
+						for _, sg := range noHashSigs {
+							want[sg.ID] = cloneSig(sg)
+						}
+					} else {
+						// refused: everything added before must still be there, unchanged (whether U, V, W
+						// are visible is not judged)
+						delete(universe, "U")
+						delete(universe, "V")
+						delete(universe, "W")
 					}
 				case "save":
 					if ok, err := b.save(); err != nil {
